@@ -63,6 +63,30 @@ def generate(ctx):
         if rng.random() < 0.5:
             ops = ops[:-1]
         yield {"kind": "crash", "ops": ops, "valid": False}
+    # IN the quantifier ("stops at any point before it is closed, after ANY number of atom records, with the atom
+    # count declared or not"): the count was declared as N, the writer produced MORE than N records and stopped
+    # before close (close would have raised the mismatch).  With ordinary residue / atom names the record at the box
+    # position is not a box, so every such file must be rejected (seed C14-9: touching %10.5f box fields recognised
+    # by their five decimals — which an atom record written with position_format (10, 5) also has)
+    for i in range(ctx.n(60, 1200)):
+        nrec = rng.randint(2, 6) if rng.random() < 0.8 else rng.randint(7, 25)
+        d = rng.choice([3, 5, 5, 5, 4, 6, 2])
+        vel = rng.random() < 0.4
+        ops = []
+        if d != 3 or rng.random() < 0.5:
+            ops.append(["f", d + 5, d])
+        if rng.random() < 0.6:
+            ops.append(["c", G.gen_title(rng)])
+        if rng.random() < 0.7:
+            ops.append(G.gen_box(rng))
+        ops.append(["n", rng.randint(0, nrec - 1)])
+        rng.shuffle(ops)
+        for _ in range(nrec):
+            r = G.gen_record(rng, d + 5, d, vel, (rng.randint(0, 99998), rng.randint(0, 99998)))
+            r[1] = rng.choice(["RES", "SOL", "DPPC", "LIG", "POPC", "W"])
+            r[2] = rng.choice(["A1", "C12", "OW", "HW1", "N", "CA", "P"])
+            ops.append(["w", r])
+        yield {"kind": "overcount", "ops": ops}
     # sessions closed before any record
     for pre in ([], [["c", "t"]], [["n", 0]], [["n", 3]], [["f", 9, 4], ["b3", [1.0, 2.0, 3.0]]]):
         yield {"kind": "empty", "ops": pre + [["x"]]}
@@ -272,6 +296,64 @@ def _eval_crash(ctx, case):
                 (_same_recs(mv[1], v[1]) and all(G.same_float(a, b) for a, b in zip(mv[2], v[2]))))
             if not same:
                 ctx.disagree(case, "reader verdict on a crash-point file", {"bytes": data.decode("latin-1"), "v": v[:2]},
+                             mv[:2])
+        ctx.model.ask("gro_read", hexs(data), cb2, case)
+
+
+# ----------------------------------------------------------------------------- more records than declared, no close
+
+def _eval_overcount(ctx, case):
+    ops = case["ops"]
+    path = os.path.join(ctx.scratch, f"c14-over-{ctx.evaluations}.gro")
+    ppath = os.path.join(ctx.scratch, "c14-crash-prefix.gro")
+    errs, final, snaps = G.run_session(path, ops, snap=True)
+    try:
+        os.unlink(path)
+    except OSError:
+        pass
+    nrec = sum(1 for o in ops if o[0] == "w")
+    declared = next(o[1] for o in ops if o[0] == "n")
+    fmt = next(((o[1], o[2]) for o in ops if o[0] == "f"), (8, 3))
+    vel = any(o[0] == "w" and len(o[1]) == 10 for o in ops)
+    ctx.count("overcount-format:%d.%d:%s" % (fmt[0], fmt[1], "vel" if vel else "novel"))
+    if any(e is not None for e in errs):
+        # (a record refused by the writer: C13's matter; the file so far is still an unclosed one)
+        ctx.count("overcount-session-raised")
+    digest = hashlib.sha1(repr(ops).encode()).hexdigest()
+    seen = {}
+    apath = os.path.join(ctx.scratch, "c14-abandoned.gro")
+    datas = [(oi, wi, d) for (oi, wi, d) in snaps] + [("abandoned", None, G.run_abandoned(apath, ops))]
+    try:
+        os.unlink(apath)
+    except OSError:
+        pass
+    for (oi, wi, data) in datas:
+        if data in seen:
+            v = seen[data]
+        else:
+            v, _ = _verdict(ppath, data)
+            seen[data] = v
+        ctx.case({"overcount": digest, "at": [oi, wi]}, nontrivial=True,
+                 sample={"kind": "overcount", "declared": declared, "records": nrec, "at": [oi, wi], "verdict": v[:2]})
+        ctx.oracle_ok()
+        if v[0] != "E":
+            ctx.oracle_fail(f"crash-point-accepted:more-records-than-declared:%d.%d:%s" %
+                            (fmt[0], fmt[1], "vel" if vel else "novel"), case,
+                            {"at": [oi, wi], "declared": declared, "bytes": data, "verdict": v[:2]})
+        else:
+            ctx.count("overcount-rejected-" + v[1])
+    for data, v in seen.items():
+        if not G.modelled_text(data):
+            continue
+
+        def cb2(status, toks, case, v=v, data=data):
+            m = G.parse_read_response(status, toks)
+            if m.get("open_err") == "unmodelled" or m.get("rerr") == "unmodelled":
+                ctx.count("skipped-unmodelled")
+                return
+            mv = ("E", m["open_err"]) if "open_err" in m else ("R", m["rerr"]) if "rerr" in m else ("A",)
+            if mv[:1] != v[:1] or (v[0] != "A" and mv[1] != v[1]):
+                ctx.disagree(case, "reader verdict on an over-count file", {"bytes": data.decode("latin-1"), "v": v[:2]},
                              mv[:2])
         ctx.model.ask("gro_read", hexs(data), cb2, case)
 
@@ -515,6 +597,8 @@ def _eval_empty(ctx, case):
 def evaluate(ctx, case):
     if case["kind"] == "empty":
         return _eval_empty(ctx, case)
+    if case["kind"] == "overcount":
+        return _eval_overcount(ctx, case)
     if case["kind"] == "big":
         return _eval_big(ctx, case)
     if case["kind"] == "crash":
